@@ -227,6 +227,13 @@ def shard(S, p):
                             want = ("#SHAPE=<5>\n%s\n" % " ".join(map(str, exp))).encode()
                             if r.rc != 0 or r.out != want:
                                 S.viol("C08:pair-count:%s" % container, "[%s] rc %s stdout %r expected %r" % (tag, r.rc, r.out[:80], want), wit)
-                        elif r.rc != 0 or not r.out.startswith(b"#SHAPE=<3>"):
-                            S.viol("C08:pair-count:%s" % container, "[%s] rc %s stdout %r" % (tag, r.rc, r.out[:80]), wit)
+                        else:
+                            # projected to 2 chromosomes: only complete genotypes are called chromosomes (a multiallelic or missing
+                            # genotype lowers the called total, it is never hom-ref)
+                            from ..oracle.callset import reference_create
+                            exp = reference_create(cs, [("sel", None), ("oth", None)], proj)
+                            ps = E.parse_text_spectrum(r.out) if r.rc == 0 else None
+                            from fractions import Fraction
+                            if ps is None or ps[0] != [3] or any(abs(Fraction(t) - e) > Fraction(1, 10 ** 6) for t, e in zip(ps[1], exp.cells)):
+                                S.viol("C08:pair-projected:%s" % container, "[%s] rc %s stdout %r, expected %r" % (tag, r.rc, r.out[:80], [float(x) for x in exp.cells]), wit)
                     S.case(key="CP|%s|%s|%s|%s" % (s, other, order, proj), nontrivial=True)
